@@ -541,6 +541,11 @@ class Parser:
         if ss:
             values.append(self._concat_strings_in_constant(ss))
 
+        if seen_joined:
+            for v in values:
+                if isinstance(v, ast.Constant) and isinstance(v.value, bytes):
+                    self.raise_syntax_error_known_location("cannot mix bytes and nonbytes literals", v)
+
         consolidated: list[Any] = []  # ast.Constant | ast.FormattedValue
         for p in values:
             if consolidated and isinstance(consolidated[-1], ast.Constant) and isinstance(p, ast.Constant):
